@@ -1244,9 +1244,11 @@ func (c *Ctx) execSlice(fr *Frame, st *State, x *ssa.Slice) bool {
 		return true
 	case *types.Pointer: // pointer to array
 		arr := u.Elem().Underlying().(*types.Array)
-		if xv.P == nil || len(xv.P.Path) > 0 || xv.P.Base == "" {
+		if xv.P == nil || len(xv.P.Path) > 0 || xv.P.Base == "" || varargArray(x) {
 			// slicing a local array: copy-in a fresh backing array (aliasing with the local is lost)
-			c.note("slice of local array: backing store copied (aliasing with the array variable not modelled)")
+			if !varargArray(x) {
+				c.note("slice of local array: backing store copied (aliasing with the array variable not modelled)")
+			}
 			key := c.arrKeyFor(arr.Elem())
 			c.ensureHeapSort(key, arr.Elem())
 			ref := c.def(fr.pfx+x.Name()+"_arr", "Int", st.alloc)
@@ -1406,5 +1408,49 @@ func (c *Ctx) execTypeAssert(fr *Frame, st *State, x *ssa.TypeAssert) bool {
 	}
 	c.rteOblige(fr, st, "typeassert", x, test)
 	c.bind(fr, x, x.AssertedType, val)
+	return true
+}
+
+// varargArray: x slices a freshly allocated array whose only other uses are
+// element stores that precede the slice (the shape go/ssa gives to the
+// implicit []T of a variadic call): copying the contents is then exact.
+func varargArray(x *ssa.Slice) bool {
+	a, ok := x.X.(*ssa.Alloc)
+	if !ok {
+		return false
+	}
+	refs := a.Referrers()
+	if refs == nil {
+		return false
+	}
+	for _, r := range *refs {
+		switch y := r.(type) {
+		case *ssa.Slice:
+			if y != x {
+				return false
+			}
+		case *ssa.DebugRef:
+		case *ssa.IndexAddr:
+			irefs := y.Referrers()
+			if irefs == nil {
+				return false
+			}
+			for _, ir := range *irefs {
+				st, ok := ir.(*ssa.Store)
+				if !ok || st.Addr != y {
+					return false
+				}
+				if st.Block() == x.Block() {
+					if indexIn(st.Block(), st) > indexIn(x.Block(), x) {
+						return false
+					}
+				} else if !st.Block().Dominates(x.Block()) {
+					return false
+				}
+			}
+		default:
+			return false
+		}
+	}
 	return true
 }
